@@ -26,6 +26,11 @@ CLAIMED = {
             "After every explored history Reset must make the instance bisimilar (text, tags, choices, globals, counts, canonical save, callbacks of the still-attached observers/externals/handler) to Story::new with the same seed, for two setups (with and without error handler); a path jump with call-stack reset must keep globals and counts and leave exactly one thread with one call-stack element and no pending choice.",
             "Trusted: observation function; the harness clears its own callback log when reset_state returns Ok. A reset refused while a time-limited continue is unfinished is not judged here (C08).",
             "DESIGN.md §5 C17"),
+    "C04": ("fault_enumeration",
+            "bounded exhaustive enumeration of fault-prone programs (operator x operand pair x position, fault statements, every single-token edit of corpus sources that still compiles) x all choice paths x host-call probes at every node, executed on the real runtime in the release build and, in a second process, in the debug build (overflow checks on); oracles: no panic, 32-bit wrapping results, reset-replay, cross-profile transcript equality",
+            "Every case is compiled by the repository's compiler and played along every choice path (depth <= 6) with and without handler; at every node save_state, save+load into a fresh story, a flow switch, path jumps and host function evaluation are probed. No call may panic; Int + - * and unary minus must print the 32-bit wrapping result; after an error reset_state + the same history replays like the first run; the debug build must produce the same transcript for every case in the debug set.",
+            "Trusted: catch_unwind around every host call; the wrapping oracle is i32::wrapping_*; cases that exhaust the step fuel give no verdict. Quick tier: the debug set is all statement cases, all integer-operand expression cases and every 7th other case.",
+            "DESIGN.md §5 C04"),
     "C08": ("model_checking",
             "exhaustive enumeration of pause schedules of continue_async under a virtual clock (hook H3) on the real Story: every single pause position of every line, pause after every step, all pairs per line (thorough); every public method probed at every pause point",
             "For every choice path of every pool program and every line on it: every pause placement in the stated class gives the same lines, tags, choices and the same final globals, counts, callback log (observers, externals bound unsafe and safe) and canonical save as unsliced play; at every pause point each public method is called once: state-changing calls must be refused, and a refused (or harmless) call must leave the rest of the sliced run unchanged.",
